@@ -5,10 +5,11 @@ From Memchr Require Import Spec Params Sub.IsEqual Sub.IsEqualProofs Sub.TwoWay.
 
 (* events of the preprocessing: ticks, and loads of is_equal_raw inside the
    needle (region RNeedle), never aligned *)
-Definition pre_ev (x : list N) (e : event) : Prop := load_ok 0 0 0 (length x) e.
+(* acceptable wherever the needle (and any haystack) is placed: needle-only, never marked aligned *)
+Definition pre_ev (x : list N) (e : event) : Prop := forall a lh an, load_ok a lh an (length x) e.
 
 Lemma pre_ev_tick x k : pre_ev x (Tick k).
-Proof. exact I. Qed.
+Proof. intros a lh an. exact I. Qed.
 
 Lemma satq_tick_pre x k : satq (pre_ev x) (tick k) (fun _ => True).
 Proof. apply satq_emit; [apply pre_ev_tick|exact I]. Qed.
@@ -18,7 +19,7 @@ Lemma ev_within_pre_ev x ox oy m e :
   ev_within RNeedle ox RNeedle oy m e -> pre_ev x e.
 Proof.
   intros Hx Hy. destruct e as [r off w al| | |]; cbn; try tauto.
-  intros [Hal [(Hr & Hl & Hu)|(Hr & Hl & Hu)]]; subst r al;
+  intros [Hal [(Hr & Hl & Hu)|(Hr & Hl & Hu)]] a lh an; subst r al; cbn;
     (split; [lia|discriminate]).
 Qed.
 
